@@ -732,6 +732,11 @@ O(id='uper_open_type_skip.grid', props=['C03', 'C04'], kind='native', harness='h
   bound='native grid: open types of 0..200 and 16383..16386 octets x bit offsets 0..7 x 4 content patterns (zeros, ones, 0x55, VERIF_SEED random), run under ASan/UBSan',
   timeout=900)
 
+O(id='uper_open_type.frag-grid', props=['C01', 'C02', 'C04', 'C18'], kind='native', harness='harness/ot_frag_grid.c', entry='main',
+  functions=['uper_open_type_put', 'uper_open_type_get', 'uper_open_type_get_simple', 'uper_put_length', 'uper_get_length', 'per_put_many_bits', 'per_get_many_bits', 'uper_encode_to_new_buffer'], no_canary=True,
+  bound='native grid under ASan/UBSan: open types of 1..300 octets and m*16384-2..m*16384+2 (m = 1..5) at bit offsets 0 and 3 (octets vs the X.691 10.9 fragments, read back), plus 5 hand-made valid fragment orders the encoder never produces (16K then 64K ...)',
+  timeout=900)
+
 for _o in OBLIGATIONS:
     if _o.get('enforce') and _o.get('kind') in ('enforce', 'width') and _o.get('tier') == 'quick' and 'C19' not in _o['props']:
         _o['props'] = _o['props'] + ['C19']
@@ -740,7 +745,7 @@ CONSTR = 'constructed codecs beyond the stub-member obligations: the container l
 GEN = 'everything the compiler emits as text: type descriptor tables (emit_type_DEF, emit_member_table), constraint checkers (asn1c_emit_constraint_checking_code), tag maps, selector tables'
 XERU = 'all XER encoders/decoders (xer_decode_general, pxml_parse, OCTET_STRING hex/binary/entity bodies, REAL/INTEGER text forms through snprintf/strtod)'
 UNVERIFIED = {
- 'C01': [CONSTR, GEN, XERU, 'uper_open_type_put / uper_open_type_get_simple (fragmentation at 16K needs inputs beyond any unwinding bound)', 'INTEGER (wide) UPER with semi-constrained ranges; NativeEnumerated (bsearch has no CBMC model); REAL text forms; time types', 'transcoding chains'],
+ 'C01': [CONSTR, GEN, XERU, 'uper_open_type_put / uper_open_type_get_simple: fragmentation at 16K needs inputs beyond any unwinding bound; covered only by the native grid uper_open_type.frag-grid (sizes around m*16K, m <= 5)', 'INTEGER (wide) UPER with semi-constrained ranges; NativeEnumerated (bsearch has no CBMC model); REAL text forms; time types', 'transcoding chains'],
  'C02': [CONSTR, GEN, 'tag assignment in the fixer (asn1f_fix_constr_autotag, asn1f_fetch_tags)', 'restricted-string PER alphabets (OCTET_STRING_per_put_characters)', 'NativeInteger_uper.* obligations exist but do not discharge (tier experimental)'],
  'C03': [CONSTR, XERU, 'OCTET_STRING_decode_ber constructed reassembly (obligation experimental)', 'uper_open_type_get_simple / uper_open_type_skip: no CBMC obligation discharges (bit-level fragment copying); covered only by the native grid uper_open_type_skip.grid', 'ber_skip_length (obligation experimental: recursion does not discharge)'],
  'C04': [CONSTR, XERU, 'OCTET_STRING_decode_ber (experimental)', 'per_opentype.c', 'UTF8String__process, OCTET_STRING_per_get_characters', 'unber (experimental)'],
